@@ -20,7 +20,7 @@ ENGINE = "wsim+source-faults"
 LEVEL = "fault_enumeration"
 RULE = ("case = seeded write history of 1..5 calls over {write, writestr, writef, writeall} (optionally appending to a base archive), chain, header mode, "
         "close via explicit close / context manager / exception leaving the with-block; the engine enumerates EVERY call index x EVERY applicable fault "
-        "kind (source missing; lstat EACCES/EIO; open EACCES/EIO; read EIO after k bytes for k in {0,1,block-1,block,block+1,last}; rejected arcname) "
+        "kind (source missing; lstat EACCES/EIO/ValueError; open EACCES/EIO/ValueError; read EIO after k bytes for k in {0,1,block-1,block,block+1,last}; rejected arcname) "
         "- one fault per run - and checks: the exception reaches the caller; for faults before any source byte was consumed the closed archive holds "
         "exactly the members of the successful calls, intact (py7zr and ref7z), and the failed source is never opened again; for mid-read faults the "
         "closed file fails to open or delivers only right bytes for members of successful calls. One evaluation = one fault run. "
@@ -76,7 +76,8 @@ def fault_list(case):
         if c["op"] == "write":
             n = c["content"]["len"]
             out += [(i, {"kind": "missing"}), (i, {"kind": "lstat", "errno": errno.EACCES}), (i, {"kind": "lstat", "errno": errno.EIO}),
-                    (i, {"kind": "open", "errno": errno.EACCES}), (i, {"kind": "open", "errno": errno.EIO}), (i, {"kind": "arcname_rejected"})]
+                    (i, {"kind": "open", "errno": errno.EACCES}), (i, {"kind": "open", "errno": errno.EIO}), (i, {"kind": "arcname_rejected"}),
+                    (i, {"kind": "lstat", "errno": 0, "exc": "ValueError"}), (i, {"kind": "open", "errno": 0, "exc": "ValueError"})]
             for k in sorted({0, 1, B - 1, B, B + 1, n}):
                 if 0 <= k <= n:
                     out.append((i, {"kind": "read", "after": k}))
@@ -110,7 +111,7 @@ def _one_run(case, fi, fault, res):
     shutil.rmtree(src, ignore_errors=True)
     os.makedirs(src)
     pre_consumption = fault["kind"] in ("missing", "lstat", "open", "arcname_rejected", "name_rejected")
-    cls = {"fault": fault["kind"], "op": case["calls"][fi]["op"], "close": case["close"], "append": case["base"] is not None}
+    cls = {"fault": fault["kind"] + ("-" + fault["exc"] if fault.get("exc") else ""), "op": case["calls"][fi]["op"], "close": case["close"], "append": case["base"] is not None}
     if "child" in fault:
         cls["in_tree"] = True
 
@@ -281,6 +282,8 @@ def _expected_exception(fault, py7zr):
     k = fault["kind"]
     if k == "missing":
         return (OSError, ValueError)  # writeall documents ValueError('specified path does not exist.')
+    if fault.get("exc") == "ValueError":
+        return ValueError
     if k in ("lstat", "open", "read"):
         return OSError
     if k == "name_rejected":
@@ -330,9 +333,9 @@ def _do_call(z, c, i, src, inject, failed_paths):
         if inject is not None:
             failed_paths.append(p)
             if inject["kind"] == "lstat":
-                PLAN.specs[p] = {"lstat": inject["errno"]}
+                PLAN.specs[p] = {"lstat": inject.get("exc") or inject["errno"]}
             elif inject["kind"] == "open":
-                PLAN.specs[p] = {"open": inject["errno"]}
+                PLAN.specs[p] = {"open": inject.get("exc") or inject["errno"]}
             elif inject["kind"] == "read":
                 PLAN.specs[p] = {"read_after": inject["after"]}
             elif inject["kind"] == "arcname_rejected":
@@ -348,9 +351,9 @@ def _do_call(z, c, i, src, inject, failed_paths):
             p = os.path.join(root, inject["child"])
             failed_paths.append(p)
             if inject["kind"] == "lstat":
-                PLAN.specs[p] = {"lstat": inject["errno"]}
+                PLAN.specs[p] = {"lstat": inject.get("exc") or inject["errno"]}
             elif inject["kind"] == "open":
-                PLAN.specs[p] = {"open": inject["errno"]}
+                PLAN.specs[p] = {"open": inject.get("exc") or inject["errno"]}
             else:
                 PLAN.specs[p] = {"read_after": inject["after"]}
         z.writeall(FaultPath(root), c["name"])
